@@ -14,6 +14,8 @@ from pykdebugparser.kd_buf_parser import KdBufParser
 from pykdebugparser.os_log_event import OsLogEvent
 
 RECS = [B.rec(i + 1, (i, 2, 3, 4), 9, 0x040c000d) for i in range(3)] + [b'\xff' * 64, bytes(64)]
+TAGGED = [B.TAG_MORE_EVENTS + bytes(range(8, 64)), B.TAG_EVENTS + bytes(range(8, 64)), B.TAG_TRACE_CODES + bytes(range(8, 64)),
+          B.V3_MAGIC + bytes(range(4, 64))]    # records whose first bytes look like container tags
 SS, TM, ET, ME = B.STACKSHOT_END, B.TAG_THREADMAP, B.TAG_EVENTS, B.TAG_MORE_EVENTS
 FILL1 = [b'xx', b'', b'x', SS[:5], SS[:15] + SS[:15], TM, b'\0' * 9, b's', ET, ME]
 FILL2 = [b'', TM[:3], ET, b'\0' * 3, SS, b'\x00\x1d', b'\x00' + TM[:1]]
@@ -181,7 +183,7 @@ class C03(Check):
             'included) x both chunk-size conventions. Sub-space "meta": all sequences of <=3 (quick) / <=4 (thorough) '
             'metadata/log blocks over 7 kinds (dyld modules, trace codes, processes, kexts, images, log events, unknown tag) '
             'with occurrence-numbered payloads, the string index placed at every position, x thread maps (4) x gap bytes after '
-            'MORE_EVENTS (4). Sub-space "long": 64/513/1500 records in 1..3 chunks. Sub-space "reuse": ONE parser object parses '
+            'MORE_EVENTS (4). Sub-space "blocks": every filler length 362..531, 3946..4115, 8042..8211 before the stackshot sentinel, before the thread-map tag and after MORE_EVENTS (a tag at / across every 512/4096/8192-byte block boundary). Sub-space "tagged": records whose first bytes are container tags / the v3 magic, in every position and chunking. Sub-space "long": 64/513/1500 records in 1..3 chunks. Sub-space "reuse": ONE parser object parses '
             'two dumps in turn (6 x 6 block sequences x 3 map pairs); the second parse must leave the second dump\'s metadata only. Oracle: events all/in order/== independent decode/before any log; tables after the thread-map '
             'chunk and after logs; list-valued sections concatenated in file order; scalar sections equal one of their '
             'payloads; logs in order with strings resolved. non-trivial = >=2 chunks or >=2 blocks. states = distinct '
@@ -204,6 +206,8 @@ class C03(Check):
             out.append(('meta', ch))
         out.append(('long',))
         out.append(('reuse',))
+        out += [('blocks', which) for which in ('filler1', 'filler2', 'gap')]
+        out.append(('tagged',))
         return out
 
     def run_shard(self, desc, acc):
@@ -229,6 +233,38 @@ class C03(Check):
                     acc.case(nontrivial=True, transitions=n + 1, state=h64(('long', n, comp)), outcome=h64(('long', n, comp)))
                     for sig, detail in bad:
                         acc.violation(sig + ':long-dump', {'kind': 'long', 'n': n, 'comp': list(comp)}, detail)
+        elif desc[0] == 'blocks':
+            # a scanner that reads in blocks: every filler length that puts a tag at / across a 4096- or 8192-byte boundary
+            which = desc[1]
+            recs = RECS[:3]
+            for target in (512, 4096, 8192):
+                for L in range(target - 150, target + 20):
+                    fill = bytes((i * 7 + 1) % 251 + 1 for i in range(L))      # no zero bytes, never contains a tag
+                    kw = dict(threads=THREADMAPS[0], chunks=[recs[:1], recs[1:]], blocks=[blk('codes', 0)])
+                    if which == 'filler1':
+                        kw['filler1'] = fill
+                    elif which == 'filler2':
+                        kw['filler2'] = fill
+                    else:
+                        kw['gap'] = fill
+                    blob = B.v3(**kw)
+                    bad = judge(blob, THREADMAPS[0], recs, ['codes'], None)
+                    acc.case(nontrivial=True, transitions=4, state=h64(('blocks', which, L)), outcome=h64(('blocks', which)))
+                    for sig, detail in bad:
+                        acc.violation(sig + ':long-filler', {'kind': 'blocks', 'which': which, 'len': L}, detail)
+        elif desc[0] == 'tagged':
+            for seq in itertools.product(range(len(TAGGED) + 1), repeat=3):
+                recs = [(TAGGED + [RECS[0]])[i] for i in seq]
+                for comp in ((3,), (1, 2), (2, 1), (1, 1, 1)):
+                    chunks, i = [], 0
+                    for c in comp:
+                        chunks.append(recs[i:i + c])
+                        i += c
+                    blob = B.v3(THREADMAPS[0], chunks, [blk('codes', 0)])
+                    bad = judge(blob, THREADMAPS[0], recs, ['codes'], None)
+                    acc.case(nontrivial=True, transitions=4, state=h64(('tagged', seq, comp)), outcome=h64(('tagged', seq)))
+                    for sig, detail in bad:
+                        acc.violation(sig + ':record-looks-like-a-tag', {'kind': 'tagged', 'seq': list(seq), 'comp': list(comp)}, detail)
         elif desc[0] == 'reuse':
             # ONE KdBufParser object parses two different dumps one after the other: after the second parse its metadata and
             # tables are those of the second dump only
@@ -272,10 +308,10 @@ class C03(Check):
             acc.sample({k: (list(v) if isinstance(v, tuple) else v) for k, v in params.items()})
 
     def replay(self, case):
-        if case.get('kind') in ('long', 'reuse'):
+        if case.get('kind') in ('long', 'reuse', 'blocks', 'tagged'):
             from mc.run import Acc
             acc = Acc()
-            self.run_shard((case['kind'],), acc)
+            self.run_shard((case['kind'], case.get('which')) if case['kind'] == 'blocks' else (case['kind'],), acc)
             return [(sig, v['cases'][0][1]) for sig, v in acc.violations.items()]
         params = dict(case['params'])
         params['comp'] = tuple(params['comp'])
